@@ -609,21 +609,25 @@ def _dispatch_log_or_error(
             wire_batch_logger.debug("Classify batch: zero-row, no log keys -> data")
         return False
 
-    level_str = level_bytes.decode()
-    message_str = message_bytes.decode()
+    # Everything below is peer-controlled: decode leniently and treat anything that is not the
+    # documented shape as absent, so that a log batch can never fail the call it annotates.
+    level_str = level_bytes.decode(errors="replace")
+    message_str = message_bytes.decode(errors="replace")
 
     # Extract extra info (traceback, exception_type, etc.)
     raw_extra_data: dict[str, object] = {}
     raw_extra = custom_metadata.get(LOG_EXTRA_KEY)
     if raw_extra is not None:
-        with contextlib.suppress(json.JSONDecodeError):
-            raw_extra_data = json.loads(raw_extra.decode())
+        with contextlib.suppress(ValueError, RecursionError):
+            parsed_extra = json.loads(raw_extra.decode(errors="replace"))
+            if isinstance(parsed_extra, dict):
+                raw_extra_data = parsed_extra
 
     # Extract request_id from batch metadata
     request_id_bytes = custom_metadata.get(REQUEST_ID_KEY)
     request_id = ""
     if request_id_bytes is not None:
-        request_id = request_id_bytes.decode()
+        request_id = request_id_bytes.decode(errors="replace")
 
     if wire_batch_logger.isEnabledFor(logging.DEBUG):
         wire_batch_logger.debug(
@@ -647,10 +651,18 @@ def _dispatch_log_or_error(
     # Extract server_id from top-level metadata into extra
     server_id_bytes = custom_metadata.get(SERVER_ID_KEY)
     if server_id_bytes is not None:
-        extra["server_id"] = server_id_bytes.decode()
+        extra["server_id"] = server_id_bytes.decode(errors="replace")
     if request_id:
         extra["request_id"] = request_id
-    msg = Message(Level(level_str), message_str, **extra)
+    try:
+        level = Level(level_str)
+    except ValueError:
+        # A level this client does not know: nothing sensible to deliver, ignore the batch.
+        return True
+    # Not ``Message(level, text, **extra)``: the peer chooses the keys, and one named like a
+    # parameter of Message.__init__ ("level", "message", "self") would raise TypeError.
+    msg = Message(level, message_str)
+    msg.extra = dict(extra) or None
     if on_log is not None:
         on_log(msg)
     return True
